@@ -36,6 +36,7 @@
    a fresh process),  ResidueFree (aes = FALSE: third-party functions are back).
 
    DON'T-CARE: the digest flag `same` of a document whose modelled observation already deviates;
+   the outcome ("ok"/"fail") of AES documents as such (only its equality with the fresh-process outcome);
    what "plain" documents contain; cache growth (memory only).                                      *)
 EXTENDS Naturals, Sequences, FiniteSets, TLC, Json, IOUtils, TLCExt
 
@@ -110,7 +111,9 @@ TraceExtract ==
     /\ IsEvent("Extract")
     /\ LET d == DocOf(Ev)  r == Extract(d, cache, aes) IN
        /\ Ev.d \in {"plain", "aesT", "aesU", "font"}
-       /\ Ev.out = r.out
+       /\ \/ Ev.out = r.out
+          \/ /\ d.k \in {"aesT", "aesU"}                  \* DON'T-CARE: whether an AES document can be read at
+             /\ "AesPatchOnlyOnOpenFailure" \notin Deviations \* all (C08); only `same` (equal to isolation) counts
        /\ Range(Ev.gl) = r.gl
        /\ (Observation(r) = Isolated(d)) => Ev.same       \* DON'T-CARE once the modelled part deviates
        /\ cache' = r.cache /\ aes' = r.aes
